@@ -19,7 +19,7 @@ ASSUMPTIONS = ["saved-channel subsets are prefixes of the 384 acquired channels 
                "NPultra has no geometry-map reference in the fixtures: shank-map encoding only",
                "mux tables: NP1/NPultra 32 ADCs x 12 channels over 13 slots, NP2 24 ADCs x 16 channels over 16 slots (SpikeGLX muxTbl)"]
 REQUIRED = {"geometries_checked": 40, "joint_permutation_checked": 40, "encodings_compared": 10, "split_checked": 4, "grid_points": 1000,
-            "adc_checked": 40}
+            "adc_checked": 40, "cached_tag_variants": 200}
 CASE_TIMEOUT = 60.0
 KEYS = [("x", "x"), ("y", "y"), ("shank", "shank"), ("row", "row"), ("col", "col_out"), ("adc", "adc"), ("sample_shift", "sample_shift")]
 
@@ -109,6 +109,19 @@ def run_case(case):
                         s = np.sort(ss[adc == a])
                         okadc &= len(np.unique(s)) == s.size and (s.size < 3 or np.allclose(np.diff(s), np.diff(s)[0], atol=1e-12) or n < 384)
                     res.check(okadc, "adc:spacing", f"{label}: an ADC serves two channels at the same delay or unevenly", counter="adc_checked")
+                    # the geometry is a function of the acquisition's header fields: a dictionary that went through other hands - re-used from a recording
+                    # of another generation and updated field by field, so that the tag the parser caches in it ('neuropixelVersion') is stale or gone -
+                    # describes the same sites
+                    for stale in ("3A", "3B2", "NP2.1", "NP2.4", "NPultra", None):
+                        md2 = type(md)(md)
+                        if stale is None:
+                            md2.pop("neuropixelVersion", None)
+                        else:
+                            md2["neuropixelVersion"] = stale
+                        g2s = spikeglx.geometry_from_meta(md2, sort=True)
+                        res.check(set(g2s) == set(gs) and all(np.array_equal(g2s[k], gs[k]) for k in gs), "geometry:depends-on-cached-tag",
+                                  f"{label}: the same header fields with the parser's cached tag neuropixelVersion={stale!r} give another geometry "
+                                  f"(keys differing: {[k for k in gs if k not in g2s or not np.array_equal(g2s[k], gs[k])]})", counter="cached_tag_variants")
                     geos[enc] = gs
                     if not np.array_equal(rec.order, np.arange(n)):
                         nt += 1
